@@ -38,6 +38,8 @@ pub enum Op {
     ShrinkToFit,
     /// continue the history on a clone
     Clone,
+    /// `dst.clone_from(&x)` into an existing vector with these bits; continue on `dst`
+    CloneFrom(String),
     /// BitVectorMut -> BitVector -> BitVectorMut
     FreezeThaw,
     /// iter().collect::<BitVectorMut>()
@@ -110,7 +112,7 @@ pub fn gen_case(run_seed: u64, tier: Tier) -> BvmCase {
     };
     let n_ops = rng.urange(1, max_ops);
     // swarm: a per-run weight for every operation kind, some switched off entirely
-    let mut weights = [0u64; 13];
+    let mut weights = [0u64; 14];
     for w in weights.iter_mut() {
         *w = if rng.chance(1, 4) { 0 } else { rng.range(1, 8) };
     }
@@ -205,6 +207,10 @@ pub fn gen_case(run_seed: u64, tier: Tier) -> BvmCase {
             9 => Op::FreezeThaw,
             10 => Op::IterCollect,
             11 => Op::IntoIterCollect,
+            13 => {
+                let k = gen_len(&mut rng).min(1500);
+                Op::CloneFrom(bits_to_string(&gen_bools(&mut rng, k)))
+            }
             12 => {
                 // the serialized size is about 24 + 64 * lines bytes
                 let size = 24 + 64 * ((n as u64 + 511) / 512) + 8;
@@ -677,6 +683,11 @@ pub fn exec(case: &BvmCase) -> RunOut {
                 Op::Clone => {
                     let z = y.clone();
                     y = z;
+                }
+                Op::CloneFrom(dst_bits) => {
+                    let mut dst: BitVectorMut = string_to_bits(dst_bits).into_iter().collect();
+                    dst.clone_from(&y);
+                    y = dst;
                 }
                 Op::FreezeThaw => {
                     let f: BitVector = y.into();
